@@ -222,11 +222,13 @@ def run_symx(
             r["name"],
             dict(slices=0, paths=0, ok=0, fail=0, ignored=0, unknown=0, exhausted_slices=0,
                  timed_out_slices=0, solver_queries=0, solver_time_s=0.0, nontrivial=0,
-                 unknown_reasons={}, errors=0),
+                 unknown_reasons={}, errors=0, rechecked=0, recheck_disagreements=0),
         )
         agg["slices"] += 1
         for k in ("paths", "ok", "fail", "ignored", "unknown", "solver_queries", "nontrivial"):
             agg[k] += r[k]
+        agg["rechecked"] += r.get("rechecked", 0)
+        agg["recheck_disagreements"] += r.get("recheck_disagreements", 0)
         agg["solver_time_s"] = round(agg["solver_time_s"] + r["solver_time_s"], 3)
         agg["exhausted_slices"] += 1 if r["exhausted"] else 0
         agg["timed_out_slices"] += 1 if r["timed_out"] else 0
@@ -303,6 +305,8 @@ def run_symx(
                 "distinct realised representative inputs",
         "paths_ok": tot("ok"), "paths_failing": tot("fail"), "paths_precondition_unmet": tot("ignored"),
         "paths_unknown": tot("unknown"),
+        "passing_paths_rechecked_concretely": tot("rechecked"),
+        "engine_model_disagreements_found_by_recheck": tot("recheck_disagreements"),
         "solver_queries": tot("solver_queries"),
         "solver_time_s": round(sum(a["solver_time_s"] for a in by_h.values()), 2),
         "per_harness": by_h,
